@@ -132,7 +132,8 @@ pub fn all() -> Vec<Check> {
             prop: "C18",
             level: "fault_enumeration",
             parts: vec![part(D, 0, 40_000, 2_000_000, "real ChunkedReadFile over real files; truncate/extend/short read/EINTR/EIO at a drawn read instant; metadata scenarios"),
-                        part(D, 1, 40_000, 3_000_000, "two streams over one ChunkedReadFile on two simulated threads, interleaved at every lseek/read/pread (system-call seam)")],
+                        part(D, 1, 40_000, 3_000_000, "two streams over one ChunkedReadFile on two simulated threads, interleaved at every lseek/read/pread (system-call seam)"),
+                        part(F, 2, 20_000, 2_000_000, "serve(ChunkedReadFile) behind the real hyper connection: real file, short reads, truncation / EIO / EINTR at a drawn read instant; a truncated response must not look complete on the wire, a complete one carries the file's bytes")],
             rule: "one run = file size class x range shape x read-size policy x (optional) one fault at a drawn read index, polled directly or through serve(); non-trivial = a non-empty range was streamed and judged (or a metadata scenario ran); grid = size class | range shape | fault | read index | via serve",
             assumptions: vec!["the file system under /verif/sim/target/filesim behaves like a local POSIX file system (pread returns 0 at/after EOF)"],
         },
